@@ -30,16 +30,16 @@ def plan(tier):
                 d = {'CB': cb, 'OB_ACCEPT': 1, 'KEYLEN': L, adef: 1}
                 desc = 'forall %d-byte keys: %s %s key setting accepts the length; rounds and schedule equal those of the key zero-padded to %d bytes' % (L, nm, api, -(-L // blk) * blk)
                 if primary:
-                    qs.append(Q('accept:%s:%s:%d' % (nm, api, L), 'c10.c', desc, defs=d, timeout=600))
+                    qs.append(Q('accept:%s:%s:%d' % (nm, api, L), 'c10.c', desc, defs=d, timeout=600, sanitize=True))
                 else:
                     # in-between lengths.  CBMC 6.11 mis-simplifies "u.row[i/k] = w" followed by a read through another union
                     # member (DESIGN section 2): skinny128 reads the same member in the SKINNY_64BIT=0 configuration, so that
                     # configuration is decided natively; the shipped 64-bit path of skinny128 and every path of skinny64
                     # (which always reads tk.lrow[0]) are decided on clang's IR of the same files
                     if cb == 8:
-                        qs.append(Q('accept:%s:%s:%d:rows' % (nm, api, L), 'c10.c', desc + ' [SKINNY_64BIT=0 path]', defs=d, cfg={'64BIT': 0}, timeout=600))
+                        qs.append(Q('accept:%s:%s:%d:rows' % (nm, api, L), 'c10.c', desc + ' [SKINNY_64BIT=0 path]', defs=d, cfg={'64BIT': 0}, timeout=600, sanitize=True))
                     d2 = dict(d); d2['LLROUTE'] = 1
-                    qs.append(Q('accept:%s:%s:%d:ir' % (nm, api, L), 'c10.c', desc + ' [shipped 64-bit path, clang IR]', defs=d2, ll=llunits(), timeout=600, fsarray=2048))
+                    qs.append(Q('accept:%s:%s:%d:ir' % (nm, api, L), 'c10.c', desc + ' [shipped 64-bit path, clang IR]', defs=d2, ll=llunits(), timeout=600, fsarray=2048, sanitize=True))
             for L in lens_bad:
                 qs.append(Q('reject:%s:%s:%d' % (nm, api, L), 'c10.c',
                             'length %d is rejected by %s %s key setting with 0 and the object is byte-identical afterwards (arbitrary prior content)' % (L, nm, api),
